@@ -176,6 +176,22 @@ func (r *Report) Finish(outDir string, findings []Finding) int {
 			r.Fatal("vacuous: rule %s matched %d instances, floor is %d (confirmed by reading on the pinned tree)", rule, r.ruleCount[rule], n)
 		}
 	}
+	// a rule that no longer finds the constructs it is anchored in (a function is gone, a
+	// rule matches fewer sites than were confirmed) leaves the property undecided on this
+	// tree: that fails the check like any other undecided construct (exit 1, VIOLATION
+	// line), it is not a crash of the checker. Load and type errors stay checker failures.
+	{
+		var keep []string
+		for _, f := range r.fatal {
+			if strings.HasPrefix(f, "unresolved-anchor") || strings.HasPrefix(f, "vacuous") {
+				r.Undecided(Diag{Rule: "ANCHOR", Func: "-", Object: f, Pos: "-", Reason: "the rules of this property are anchored in constructs the tree no longer has: " + f})
+				fmt.Printf("note: anchor lost property=%s %s\n", r.Property, f)
+				continue
+			}
+			keep = append(keep, f)
+		}
+		r.fatal = keep
+	}
 	known := map[string]Finding{}
 	for _, f := range findings {
 		if f.Property == r.Property && f.Status == "known" {
